@@ -221,6 +221,29 @@ def correspondence(ctx, enabled, quick):
             for ip in range(npth):
                 add(f'HES {sc} {fl([s0, v0, r - q, kap, th, sgv, rh, 1.0 / nas])} {fl(z[ip])}', f'get_heston_paths.{sc}', Pth[ip],
                     dict(fn='get_heston_paths', num_paths=npth, num_annual_steps=nas, t=tt, drift=r - q, s0=s0, v0=v0, kappa=kap, theta=th, sigma=sgv, rho=rh, scheme=sc, seed=seed, path=ip))
+        # ---- Heston QUADEXP on both sides of psi = 1.5 (norminvcdf(u) supplied from the implementation's own function)
+        from financepy.utils.math import norminvcdf
+        for hi_volvol in (False, True):
+            kap_q, th_q = rng.uniform(0.5, 3.0), rng.uniform(0.02, 0.08)
+            sg_q = math.sqrt(2 * kap_q * th_q * (rng.uniform(3.0, 14.0) if hi_volvol else rng.uniform(0.3, 1.3)))
+            v0_q, rh_q = rng.uniform(0.01, 0.09), rng.uniform(-0.9, 0.3)
+            for which in ('get_heston_paths', 'heston.get_paths'):
+                seed = seed_()
+                tt, nas, npth = rng.uniform(0.5, 2.0), rng.choice([12, 50]), rng.randint(1, 3)
+                if which == 'get_heston_paths':
+                    Pth = PS.get_heston_paths(npth, nas, tt, r - q, s0, v0_q, kap_q, th_q, sg_q, rh_q, 3, seed)
+                else:
+                    Pth = H.get_paths(s0, r, q, v0_q, kap_q, th_q, sg_q, rh_q, tt, 1.0 / nas, npth, seed, 3)
+                ns = Pth.shape[1] - 1
+                np.random.seed(seed)
+                for ip in range(npth):
+                    row = []
+                    for _k in range(ns):
+                        n1_, n2_, u_ = np.random.normal(0, 1), np.random.normal(0, 1), np.random.uniform(0.0, 1.0)
+                        row += [n1_, n2_, u_, norminvcdf(u_)]
+                    add(f'HESQ {fl([s0, v0_q, r - q, kap_q, th_q, sg_q, rh_q, 1.0 / nas])} {fl(row)}', f'{which}.3' + ('.psi>1.5' if hi_volvol else ''), Pth[ip],
+                        dict(fn=which, scheme='QUADEXP', num_paths=npth, num_annual_steps=nas, t=tt, drift=r - q, r=r, q=q, s0=s0, v0=v0_q, kappa=kap_q, theta=th_q,
+                             sigma=sg_q, rho=rh_q, seed=seed, path=ip, sigma2_over_2kappatheta=sg_q * sg_q / (2 * kap_q * th_q)))
         # ---- LMM one factor
         seed = seed_()
         n = rng.randint(3, 8)
@@ -972,6 +995,137 @@ def heston_stats(ctx, st, quick):
                                          sigma=sg, rho=rho, expiry_days=365, num_paths=4000, num_steps_per_year=nspy, seeds=sds[:4], semi_analytic=ref),
                          bias=0.02 * ref + 0.001 * s)
     ctx.count('value_mc:heston', n_eval, n_eval, sample={'fn': 'Heston.value_mc', 'schemes': ['EULER', 'EULERLOG', 'QUADEXP']})
+
+
+def heston_path_stats(ctx, st, quick):
+    """discounted asset of BOTH Heston path generators is a martingale, every scheme enum, parameter sets on both sides of
+    the QUADEXP switch psi = 1.5 (sigma^2 small / large against kappa*theta), several times along the path"""
+    BS, G, PS, V, CIR, H, L = fp()
+    rng = ctx.rng('heston-paths')
+    n_eval = 0
+    s0 = 100.0
+    npth = 40000 if quick else 160000
+    base = [(0.03, 0.04, 2.0, 0.04, 0.30, -0.7), (0.03, 0.04, 1.5, 0.04, 0.40, -0.5),       # sigma^2/(2 kappa theta) = 0.56, 1.33
+            (0.03, 0.04, 1.0, 0.04, 1.00, -0.7), (0.03, 0.09, 0.5, 0.05, 0.80, -0.3), (0.0, 0.01, 3.0, 0.02, 0.60, -0.9)]   # 12.5, 12.8, 3.0
+    for which in ('get_heston_paths', 'heston.get_paths'):
+        for sc, scn in ((1, 'EULER'), (2, 'EULERLOG'), (3, 'QUADEXP')):
+            for (mu, v0, kap, th, sg, rho) in base:
+                kap, th, sg = kap * rng.uniform(0.9, 1.1), th * rng.uniform(0.9, 1.1), sg * rng.uniform(0.95, 1.05)
+                nas = rng.choice([12, 50])
+                t = rng.choice([1.0, 2.0])
+                seed = rng.randint(1, 2 ** 31 - 1)
+                if which == 'get_heston_paths':
+                    Pth = PS.get_heston_paths(npth, nas, t, mu, s0, v0, kap, th, sg, rho, sc, seed)
+                else:
+                    q_ = 0.01
+                    Pth = H.get_paths(s0, mu + q_, q_, v0, kap, th, sg, rho, t, 1.0 / nas, npth, seed, sc)
+                n_eval += 1
+                ncol = Pth.shape[1]
+                cs = dict(fn=which, scheme=scn, num_paths=npth, num_annual_steps=nas, t=t, drift=mu, s0=s0, v0=v0, kappa=kap, theta=th, sigma=sg, rho=rho, seed=seed,
+                          sigma2_over_2kappatheta=sg * sg / (2 * kap * th))
+                for frac in (0.25, 0.5, 1.0):
+                    i = max(1, int(round(frac * (ncol - 1))))
+                    ti = i / nas
+                    x = Pth[:, i] * math.exp(-mu * ti)
+                    # EULER compounds (1+mu dt)^n instead of exp(mu t): second-order term allowed, plus 5e-4*S0 for the truncation schemes
+                    bias = s0 * (mu * mu * ti / nas) + (5e-4 * s0 if sc != 3 else 1e-9)
+                    st.ztest(f'heston.martingale.{which}.{scn}' + ('.psi>1.5' if sg * sg / (2 * kap * th) > 1.5 else ''),
+                             f'{which} ({scn}): discounted asset price exp(-mu t) S_t is not a martingale (sample mean vs S0)', x, s0,
+                             dict(cs, time=ti, column=i), bias=bias, clause='martingale')
+    ctx.count('paths:heston', n_eval, n_eval, sample={'fn': 'get_heston_paths', 'schemes': ['EULER', 'EULERLOG', 'QUADEXP'], 'num_paths': npth})
+
+
+# ================================================================================================ object re-use
+def reuse_oracles(ctx, quick):
+    """history independence of the stateful entry points: ONE object valued on a ladder of spots / rates / strikes must
+    return, rung by rung, the very bits of a freshly built object called once with the same arguments and seed"""
+    from financepy.utils.global_types import OptionTypes
+    from financepy.models.black_scholes import BlackScholes
+    from financepy.models.heston import Heston, HestonNumericalScheme
+    from financepy.models.process_simulator import FinProcessSimulator, ProcessTypes, FinGBMNumericalScheme, FinHestonNumericalScheme, \
+        FinVasicekNumericalScheme, CIRNumericalScheme
+    from financepy.models.student_t_copula import StudentTCopula
+    from financepy.products.equity.equity_vanilla_option import EquityVanillaOption
+    from financepy.products.equity.equity_barrier_option import EquityBarrierOption, EquityBarrierTypes
+    from financepy.products.equity.equity_asian_option import EquityAsianOption
+    from financepy.products.equity.equity_basket_option import EquityBasketOption
+    from financepy.products.equity.equity_rainbow_option import EquityRainbowOption, EquityRainbowOptionTypes
+    from financepy.products.equity.equity_fixed_lookback_option import EquityFixedLookbackOption
+    from financepy.products.equity.equity_float_lookback_option import EquityFloatLookbackOption
+    from financepy.products.fx.fx_vanilla_option import FXVanillaOption
+    rng = ctx.rng('reuse')
+    vd = mkdates()
+    ed = vd.add_days(365)
+    seed = rng.randint(1, 2 ** 31 - 1)
+    s0 = rng.uniform(80, 120)
+    ladder = [(s0, 0.03, 0.01), (s0 * 1.01, 0.03, 0.01), (s0 * 0.9, 0.03, 0.01), (s0, 0.035, 0.01), (s0, 0.03, 0.02), (s0 * 1.2, 0.05, 0.0), (s0, 0.03, 0.01)]
+    k = s0
+    n_eval = [0]
+
+    def compare(name, make, call, rungs=None):
+        """make() builds the object; call(obj, rung) values it"""
+        rungs = ladder if rungs is None else rungs
+        shared = make()
+        for i, rg in enumerate(rungs):
+            try:
+                a = call(shared, rg)
+                b = call(make(), rg)
+            except Exception as e:  # noqa: BLE001
+                ctx.violation(f'{name} raises {type(e).__name__} ({e}) on the re-use ladder', dict(fn=name, rung=i, arguments=list(rg), seed=seed), clause='callable')
+                return
+            n_eval[0] += 2
+            if bits(a) != bits(b):
+                ctx.violation(f'{name}: a re-used object returns a different result than a freshly built object for the same arguments and seed '
+                              '(state kept from an earlier call)', dict(fn=name, rung=i, arguments=[float(x) if isinstance(x, (int, float)) else str(x) for x in rg],
+                                                                      earlier_rungs=[list(map(float, r[:3])) for r in rungs[:i]], seed=seed,
+                                                                      reused=np.asarray(a, float).ravel()[:4].tolist(), fresh=np.asarray(b, float).ravel()[:4].tolist()),
+                              clause='object-reuse')
+                return
+
+    v0, kap, th, sg, rho = rng.uniform(0.03, 0.08), rng.uniform(1.0, 3.0), rng.uniform(0.03, 0.08), rng.uniform(0.2, 0.5), rng.uniform(-0.8, -0.2)
+    for sch in HestonNumericalScheme:
+        for ot in (OptionTypes.EUROPEAN_CALL, OptionTypes.EUROPEAN_PUT):
+            opt = EquityVanillaOption(ed, k, ot)
+            compare(f'Heston.value_mc[{sch.name},{ot.name}]', lambda: Heston(v0, kap, th, sg, rho),
+                    lambda m, rg, opt=opt, sch=sch: m.value_mc(vd, opt, rg[0], rg[1], rg[2], 400, 20, seed, sch))
+    # one Heston model, strikes and expiries changing too
+    opts = [EquityVanillaOption(vd.add_days(d_), k * f_, OptionTypes.EUROPEAN_CALL) for d_, f_ in ((365, 1.0), (365, 1.1), (180, 1.0), (365, 1.0))]
+    compare('Heston.value_mc[strike/expiry ladder]', lambda: Heston(v0, kap, th, sg, rho),
+            lambda m, rg: m.value_mc(vd, rg[0], s0, 0.03, 0.01, 400, 20, seed, HestonNumericalScheme.EULERLOG), rungs=[(o_,) for o_ in opts])
+    model = BlackScholes(0.25)
+    for meth in ('value_mc', 'value_mc_numpy_only', 'value_mc_numba_only', 'value_mc_numba_parallel', 'value_mc_numpy_numba', 'value_mc_nonumba_nonumpy'):
+        compare(f'EquityVanillaOption.{meth}', lambda: EquityVanillaOption(ed, k, OptionTypes.EUROPEAN_CALL),
+                lambda o_, rg, meth=meth: getattr(o_, meth)(vd, rg[0], flat(vd, rg[1]), flat(vd, rg[2]), model, 500, seed, 0))
+    compare('FXVanillaOption.value_mc', lambda: FXVanillaOption(ed, 1.1, 'EURUSD', OptionTypes.EUROPEAN_PUT, 1.0, 'USD', 2),
+            lambda o_, rg: o_.value_mc(vd, rg[0] / 100.0, flat(vd, rg[1]), flat(vd, rg[2]), BlackScholes(0.1), 500, seed))
+    compare('EquityBarrierOption.value_mc', lambda: EquityBarrierOption(ed, k, EquityBarrierTypes.DOWN_AND_OUT_CALL, 0.8 * s0, 12),
+            lambda o_, rg: o_.value_mc(1.0, k, EquityBarrierTypes.DOWN_AND_OUT_CALL.value, 0.8 * s0, 1.0, rg[0], rg[1], ProcessTypes.GBM,
+                                       (rg[0], rg[1] - rg[2], 0.25, FinGBMNumericalScheme.ANTITHETIC), 12, 300, seed))
+    for meth in ('_value_mc', '_value_mc_fast', 'value_mc'):
+        compare(f'EquityAsianOption.{meth}', lambda: EquityAsianOption(vd.add_days(73), ed, k, OptionTypes.EUROPEAN_CALL, 12),
+                lambda o_, rg, meth=meth: getattr(o_, meth)(vd, rg[0], flat(vd, rg[1]), flat(vd, rg[2]), model, 300, seed, None))
+    cm = np.array([[1.0, 0.4], [0.4, 1.0]])
+    vols2 = np.array([0.2, 0.3])
+    compare('EquityBasketOption.value_mc', lambda: EquityBasketOption(ed, k, OptionTypes.EUROPEAN_CALL, 2),
+            lambda o_, rg: o_.value_mc(vd, np.array([rg[0], 0.9 * rg[0]]), flat(vd, rg[1]), [flat(vd, rg[2]), flat(vd, 0.0)], vols2, cm, 500, seed))
+    compare('EquityRainbowOption.value_mc', lambda: EquityRainbowOption(ed, EquityRainbowOptionTypes.CALL_ON_MAXIMUM, [k], 2),
+            lambda o_, rg: o_.value_mc(vd, np.array([rg[0], 0.9 * rg[0]]), flat(vd, rg[1]), [flat(vd, rg[2]), flat(vd, 0.0)], vols2, cm, 500, seed))
+    compare('EquityFixedLookbackOption.value_mc', lambda: EquityFixedLookbackOption(ed, OptionTypes.EUROPEAN_CALL, k),
+            lambda o_, rg: o_.value_mc(vd, rg[0], flat(vd, rg[1]), flat(vd, rg[2]), 0.25, 1.3 * s0, 300, 12, seed))
+    compare('EquityFloatLookbackOption.value_mc', lambda: EquityFloatLookbackOption(ed, OptionTypes.EUROPEAN_PUT),
+            lambda o_, rg: o_.value_mc(vd, rg[0], flat(vd, rg[1]), flat(vd, rg[2]), 0.25, 1.3 * s0, 300, 12, seed))
+    # process simulator object re-used across processes and parameters
+    sims = [(ProcessTypes.GBM, (s0, 0.03, 0.2, FinGBMNumericalScheme.ANTITHETIC)), (ProcessTypes.GBM, (s0 * 1.1, 0.03, 0.2, FinGBMNumericalScheme.ANTITHETIC)),
+            (ProcessTypes.HESTON, (s0, 0.03, v0, kap, th, sg, rho, FinHestonNumericalScheme.QUADEXP)), (ProcessTypes.HESTON, (s0 * 0.9, 0.03, v0, kap, th, sg, rho, FinHestonNumericalScheme.QUADEXP)),
+            (ProcessTypes.HESTON, (s0, 0.02, v0, kap, th, sg, rho, FinHestonNumericalScheme.EULERLOG)),
+            (ProcessTypes.VASICEK, (0.03, 0.5, 0.05, 0.01, FinVasicekNumericalScheme.ANTITHETIC)), (ProcessTypes.VASICEK, (0.04, 0.5, 0.05, 0.01, FinVasicekNumericalScheme.ANTITHETIC)),
+            (ProcessTypes.CIR, (0.03, 0.5, 0.05, 0.1, CIRNumericalScheme.MILSTEIN)), (ProcessTypes.CIR, (0.04, 0.5, 0.05, 0.1, CIRNumericalScheme.MILSTEIN)),
+            (ProcessTypes.GBM, (s0, 0.03, 0.2, FinGBMNumericalScheme.ANTITHETIC))]
+    compare('FinProcessSimulator.get_process', FinProcessSimulator, lambda o_, rg: o_.get_process(rg[0], 1.0, rg[1], 12, 50, seed), rungs=sims)
+    curves = [CurveStub([0.0, 1.0, 3.0, 5.0], [1.0, 0.97, 0.9, 0.8]), CurveStub([0.0, 2.0, 5.0], [1.0, 0.95, 0.85])]
+    compare('StudentTCopula.default_times', StudentTCopula, lambda o_, rg: o_.default_times(curves, np.array([[1.0, rg[0]], [rg[0], 1.0]]), rg[1], 50, seed),
+            rungs=[(0.3, 4), (0.5, 4), (0.3, 7), (0.3, 4)])
+    ctx.count('reproducibility:object-reuse', n_eval[0], n_eval[0], sample={'fn': 'Heston.value_mc', 'ladder': [list(r) for r in ladder[:3]], 'seed': seed})
 
 
 # ================================================================================================ LMM
